@@ -314,7 +314,7 @@ PROPS["C16"] = dict(
         _TN("trigger_utc_minute_2", "UTC, Minute: new() + 2 trigger() calls", tier="thorough", bound="unwind 5", timeout=3600, mem_gb=14),
         _TN("next_utc_week", "UTC, Week, plain, n in 1..3", tier="thorough", bound="unwind 14", timeout=1800),
         _TN("next_berlin_week", "Europe/Berlin, Week, plain", bound="unwind 14", timeout=1800),
-        _TN("next_kolkata_month", "Asia/Kolkata, Month, plain (result inside the table year)", tier="thorough", bound="unwind 14", timeout=1800),
+        _TN("next_kolkata_month", "Asia/Kolkata, Month, plain (result inside the table year)", bound="unwind 14", timeout=1800),
         _TN("next_ny_month", "America/New_York, Month, plain", bound="unwind 14", timeout=1800),
         _TN("next_utc_year", "UTC, Year, plain, n in 1..3", tier="thorough", bound="unwind 14", timeout=1800),
         _TN("next_saopaulo_year", "America/Sao_Paulo 2018, Year, plain", tier="thorough", bound="unwind 14", timeout=1800),
